@@ -12,19 +12,20 @@ import Mathlib.Tactic.Linarith
 Full statement (DESIGN 4/C02): `createProgram … = .ok (some prog) → prog.windows ~ (denoteTop …).windows`
 (permutation) for every template, and every window declared inside its node lies inside `[0, duration]`.
 
-Proved here: `windows_correct_partial` for the stage-1 constructor subset (see `QP.Props.C01`),
-`windows_correct_reversal_partial` for that subset extended by time reversal, `reverse_mirrors_windows` for
-`Loop.reverse_inplace` on every program tree, and the
-"inside" property as preservation theorems on the denotation: sequencing, repetition, own windows of a node
-and time reversal keep windows inside the pulse.  Windows of table / point / multi-channel / arithmetic atoms,
-parallel channels, scalar arithmetic, time reversal (program side: `Loop.reverse_inplace`, PF-03 repaired) and
-the single-waveform collapse are covered by the correspondence + judge only.
+Proved here: `windows_correct_partial` / `windows_correct_reversal_partial` for `Stage3R` — the proved atoms
+(constant, function, table, point, `AtomicMultiChannelPT` of them) composed by ALL seven composite constructors
+(sequence, repetition, iteration, mapping, time reversal, parallel channels, arithmetic with a scalar), without
+positivity assumption and for the empty program —, `windows_correct_single_partial` for every `to_single_waveform`
+set (C05), `reverse_mirrors_windows` for `Loop.reverse_inplace` on every program tree, and the "inside" property as
+preservation theorems on the denotation: sequencing, repetition, own windows of a node and time reversal keep windows
+inside the pulse.  `ArithmeticAtomicPT` and wrappers in atomic context: correspondence + judge only.
 -/
 namespace QP.Props.C02
 open QP.PT
 
-/-- **windows (partial)**: the windows of the compiled program are, as a multiset, the windows the template
-denotes — one per execution of the declaring node, at execution start + begin, under the mapped name. -/
+/-- **windows (partial)**: for `Stage3R` (all composite constructors over the proved atoms) the windows of the compiled
+program are, as a multiset, the windows the template denotes — one per execution of the declaring node, at execution
+start + begin, under the mapped name; no positivity assumption, no PF-11 exclusion. -/
 theorem windows_correct_partial {pt : PT} (hs : Stage3R pt) (params : List (String × Rat))
     (mm : Option (List (MName × Option MName))) (cm : List (Chan × Option Chan)) (prog : Loop) (P : Pulse)
     (hprog : createProgram pt params mm cm [] = .ok (some prog))
@@ -32,7 +33,7 @@ theorem windows_correct_partial {pt : PT} (hs : Stage3R pt) (params : List (Stri
     prog.windows.Perm P.windows :=
   (createProgram_relWT_basic hs.basic params mm cm (some prog) P hprog hden).2
 
-/-- **windows incl. time reversal (partial)**: for the stage-1 subset extended by `TimeReversalPT` (`Stage1R`),
+/-- **windows incl. the empty program (partial)**: for `Stage3R`,
 without any positivity assumption: the program's windows are the denoted windows — inside a time reversed part
 mirrored about that part's duration —, and if no program is produced nothing is denoted either. -/
 theorem windows_correct_reversal_partial {pt : PT} (hs : Stage3R pt) (params : List (String × Rat))
